@@ -660,6 +660,11 @@ protected:
       Wt wt_sij = c + s_p.second;
       for (auto d_p : dest_dec) {
         vert_id de = d_p.first;
+        // A path s->i->j->s is not an edge: the self-loop s->s is
+        // printed as "s-s<=k" and makes operator<= answer false because
+        // the closed left operand has no such edge.
+        if (se == de)
+          continue;
         Wt wt_sijd = wt_sij + d_p.second;
         if (g.lookup(se, de, w)) {
           if (w.get() <= wt_sijd) {
